@@ -8,7 +8,7 @@ round_tag = sys.argv[2] if len(sys.argv) > 2 else "round1"
 for rf in sorted(glob.glob(f"{res_dir}/*.txt")):
     name = os.path.basename(rf)[:-4]            # C01-1
     pid, n = name.split("-")
-    out = {"round1": f"/tmp/seed/{pid}-out", "r2": f"/tmp/seed2/{pid}-out", "r3": f"/tmp/seed3/{pid}-out", "r6": f"/tmp/seed7/{pid}-out"}.get(round_tag, f"/tmp/seed{round_tag[1:]}/{pid}-out")
+    out = {"round1": f"/tmp/seed/{pid}-out", "r2": f"/tmp/seed2/{pid}-out", "r3": f"/tmp/seed3/{pid}-out", "r6": f"/tmp/seed7/{pid}-out", "r7": f"/tmp/seed8/{pid}-out"}.get(round_tag, f"/tmp/seed{round_tag[1:]}/{pid}-out")
     ported = os.path.exists(f"{out}/patch{n}.ported.diff")
     text = open(rf).read()
     if "DONE" not in text:
